@@ -1,6 +1,7 @@
 """C11 — execution timeouts fire, compensated but bounded
 (reference model SuspClock.tla; real code pkg/clock/suspendable_clock.go,
-pkg/blobstore/suspending_blob_access.go, pkg/cas/suspending_directory_fetcher.go)."""
+pkg/blobstore/suspending_blob_access.go, pkg/cas/suspending_directory_fetcher.go,
+timeout handling of pkg/builder/local_build_executor.go)."""
 import json
 
 from lib import vlib
@@ -61,6 +62,11 @@ def run(ctx):
                {"VERIF_ENUM_PLAN": "3:1:2:6:2,4:2:3:4:3" if quick
                 else "3:1:2:9:2,4:2:3:6:3,2:1:0:6:3,5:3:1:6:3,1:1:4:5:3,6:2:3:8:2"})
     meta = json.load(open(e + "/meta.json"))
+    # the real localBuildExecutor on top of the same clock: Action.timeout ->
+    # cancellation of the command, DEADLINE_EXCEEDED, virtual_execution_duration
+    x = _drive(ctx, binary, "TestExecutor", "executor",
+               {"VERIF_EXEC_PLAN": "3:1:2:4,2:1:1:3" if quick else "3:1:2:6,4:2:3:5,2:1:0:4,1:1:3:4"})
+    xmeta = json.load(open(x + "/meta.json"))
     w = _drive(ctx, binary, "TestWrappers", "wrappers", {})
     wmeta = json.load(open(w + "/meta.json"))
     _drive(ctx, binary, "TestRandom", "random",
@@ -80,12 +86,15 @@ def run(ctx):
              "them, synctest quiescence after every step): every suspension pattern over H unit intervals x both orders at "
              "each instant, seeded random timelines with 3 concurrent contexts/timers, nested suspenders and storage "
              "operations, and every method x backend reply x buffer use of SuspendingBlobAccess / SuspendingDirectoryFetcher "
-             "over gated backends. TLC recomputes the unsuspended integral from the logged events and evaluates the model's "
+             "over gated backends; and the real localBuildExecutor with that clock and a fake runner (every suspension pattern x "
+             "every instant at which the command ends by itself or is cancelled by the worker): the context the command is "
+             "given is judged like any other context against Action.timeout, the ExecuteResponse must be DEADLINE_EXCEEDED iff "
+             "the clock ended the command and virtual_execution_duration must be the unsuspended time it ran. TLC recomputes the unsuspended integral from the logged events and evaluates the model's "
              "equations on every observation (Done, Err, UnsuspendedDurationKey) and the suspend/resume bracketing of every "
              "storage operation.",
         explanation="timing equations of suspendable_clock.go and suspend/resume bracketing of the suspending wrappers",
         exhaustive=True,
-        extra={"enumeration": meta, "wrapper_scenarios": wmeta},
+        extra={"enumeration": meta, "wrapper_scenarios": wmeta, "executor": xmeta},
     )
 
 
